@@ -282,7 +282,18 @@ func runC17(t *rapid.T) {
 	}
 	ops = append(ops, lop{Kind: "show"})
 	s := w.S
+	// registrations made before Init count like any other
+	preReg := rapid.SampledFrom([]string{"", "", "reg", "unreg"}).Draw(t, "preinit")
+	preRune := rapid.SampledFrom([]rune{tcell.RuneHLine, tcell.RuneVLine, tcell.RuneULCorner, tcell.RuneBullet, tcell.RuneDegree, 0x2603}).Draw(t, "preinitrune")
 	s.Spawn("app", func() {
+		switch preReg {
+		case "reg":
+			w.Scr.RegisterRuneFallback(preRune, "!")
+			w.fallbacks[preRune] = "!"
+		case "unreg":
+			w.Scr.UnregisterRuneFallback(preRune)
+			delete(w.fallbacks, preRune)
+		}
 		if err := w.Scr.Init(); err != nil {
 			w.initErr = err
 			return
